@@ -35,7 +35,7 @@ OPTS = {"transforms": False}
 
 
 def plan(tier):
-    return 3000 if tier == "quick" else 70000
+    return 6000 if tier == "quick" else 70000
 
 
 def budget(tier):
